@@ -196,3 +196,618 @@ theorem runFn_ht (hn : NoNested env) (kind : String) (run mem : Rec) (fuel : Nat
              rw [h] at hal
              exact absurd hal (by decide))
 end WorkflowModel.Engine
+
+namespace WorkflowModel.Engine
+open WorkflowModel RS
+variable {cfg : Cfg} {env : Env}
+
+/-! ## error counting, the updater, the step consumer -/
+
+theorem maybePauseMem_ht (n : Int) (p : Proc) (mem : Rec) (e : Abort) :
+    HT cfg env (fun R => allowed mem.runState 3 = true → Based R mem) (maybePauseMem cfg n p mem e) (fun _ _ => True) := by
+  refine HT.fix (fun R0 hb0 => ?_)
+  unfold maybePauseMem
+  split
+  · exact HT.pure (fun _ _ => trivial)
+  · dsimp only
+    refine HT.bind HT.getSys (fun s => ?_)
+    refine HT.bind (HT.modifySys (fun _ => rfl) (fun s h => (RelayInv.stable cfg).setCount s _ _ h)) (fun _ => ?_)
+    split
+    · exact HT.pure (fun _ _ => trivial)
+    · refine HT.bind (HT.pre (fun s _ hp => ⟨hp.1, fun _ => by rw [hp.1]; exact hb0 ‹_›⟩) (ctlUpdateMem_ht mem .pause R0)) (fun r => ?_)
+      obtain ⟨mem', err⟩ := r
+      cases err with
+      | some a => exact HT.throwA _
+      | none =>
+        refine HT.bind (HT.modifySys (fun _ => rfl) (fun s h => (RelayInv.stable cfg).setCount s _ _ h)) (fun _ => ?_)
+        exact HT.pure (fun _ _ => trivial)
+
+theorem maybePause_ht (n : Int) (p : Proc) (mem : Rec) (e : Abort) :
+    HT cfg env (fun R => allowed mem.runState 3 = true → Based R mem) (maybePause cfg n p mem e) (fun _ _ => True) := by
+  unfold maybePause
+  refine HT.bind (maybePauseMem_ht n p mem e) (fun r => ?_)
+  exact HT.pure (fun _ _ => trivial)
+
+theorem not_completed_of_edge {w : Rec} (hrec : RecOK cfg w) {next : Status} (he : (w.status, next) ∈ cfg.edges) : w.runState ≠ 5 := by
+  intro h5
+  have ht := hrec.completedTerminal h5
+  unfold Cfg.graph at ht
+  exact ((Graph.isTerminal_iff cfg.edges w.status).mp ht).2 ⟨next, he⟩
+
+theorem updater_ht (current next : Status) (run : Rec) (o : Obj) :
+    HT cfg env (fun R => UBased R run) (updater cfg current next run o) (fun _ _ => True) := by
+  unfold updater
+  refine HT.bind HT.getSys (fun s => ?_)
+  dsimp only
+  refine HT.bind (HT.lookup _) (fun v => ?_)
+  cases v with
+  | none => exact HT.throwA _
+  | some latest =>
+    dsimp only
+    split
+    · exact HT.pure (fun _ _ => trivial)
+    · rename_i hst
+      split
+      · exact HT.throwA _
+      · rename_i hval
+        refine HT.pre ?_ (HT.updateRecord _)
+        intro s' hi ⟨⟨hub, _, _⟩, hcur⟩
+        obtain ⟨hl, hlid⟩ := isHead_of_curR hi.hist hcur.symm
+        obtain ⟨h, hh, hid, hv, hf, hc, hrs⟩ := hub
+        have heq : h = latest := isHead_unique hh hl (by rw [hid, hlid])
+        subst heq
+        have hstat : h.status = current := by simpa [Gen.G.updaterStatusChanged] using hst
+        have hedge : (h.status, next) ∈ cfg.edges := by
+          rw [hstat]; exact (C02.C02_validate_iff_declared cfg current next).mp (by simpa using hval)
+        have hne := not_completed_of_edge (hh.recOK hi.hist) hedge
+        have hrs' : h.runState = 1 ∨ h.runState = 2 := by
+          rcases hrs with a | a | a
+          · exact Or.inl a
+          · exact Or.inr a
+          · exact absurd a hne
+        exact legal_advance hi hh hid hv hf hc hrs' next o s.now hedge
+
+theorem not_stopped_range {rs : Int} (h1 : 1 ≤ rs) (h7 : rs ≤ 7) (hs : Gen.stopped rs = false) : rs = 1 ∨ rs = 2 ∨ rs = 5 := by
+  have : rs = 1 ∨ rs = 2 ∨ rs = 3 ∨ rs = 4 ∨ rs = 5 ∨ rs = 6 ∨ rs = 7 := by omega
+  rcases this with rfl | rfl | rfl | rfl | rfl | rfl | rfl <;> simp_all [Gen.stopped, Gen.stoppedCases]
+
+theorem ubased_view {s : Sys} (hi : Inv cfg s) {record : Rec} (hh : IsHead s.runs record) (hs : Gen.stopped record.runState = false) :
+    UBased s.runs (viewRec record) := by
+  have hrec := hh.recOK hi.hist
+  exact ⟨record, hh, rfl, rfl, rfl, rfl, not_stopped_range hrec.lo hrec.hi hs⟩
+
+theorem stepRun_ht (p : Proc) (pa : Int) (record : Rec) (fn : Rec → M (Except Abort FnRes × Rec)) (hfn : FnSpec cfg env fn) :
+    HT cfg env (fun R => IsHead R record ∧ Gen.stopped record.runState = false) (stepRun cfg p pa record fn) (fun _ _ => True) := by
+  refine HT.fix (fun R0 hp0 => ?_)
+  unfold stepRun
+  dsimp only
+  refine HT.bind (HT.pre (fun s _ hp => ⟨hp, based_view hp0.1⟩) (hfn R0 (viewRec record))) (fun r => ?_)
+  obtain ⟨res, mem⟩ := r
+  cases res with
+  | error err =>
+    dsimp only
+    refine HT.bind (HT.pre (fun s _ hp => hp.2 err rfl) (maybePause_ht pa p mem err)) (fun paused => ?_)
+    split
+    · exact HT.pure (fun _ _ => trivial)
+    · exact HT.throwA _
+  | ok res =>
+    dsimp only
+    split
+    · exact HT.pure (fun _ _ => trivial)
+    · rename_i hskip
+      refine HT.pre ?_ (updater_ht _ _ _ _)
+      intro s hi hp
+      rcases hp.1 res rfl with h | h
+      · exact absurd h hskip
+      · rw [h]
+        have := ubased_view hi (record := record) (by rw [h]; exact hp0.1) hp0.2
+        rw [h] at this; exact this
+
+end WorkflowModel.Engine
+
+namespace WorkflowModel.Engine
+open WorkflowModel RS
+variable {cfg : Cfg} {env : Env}
+
+theorem stepGate_ht (p : Proc) (pa : Int) (e : Event) (record : Rec) (fn : Rec → M (Except Abort FnRes × Rec))
+    (hfn : FnSpec cfg env fn) :
+    HT cfg env (fun R => IsHead R record) (stepGate cfg p pa e record fn) (fun _ _ => True) := by
+  unfold stepGate
+  split
+  · exact HT.pure (fun _ _ => trivial)
+  · split
+    · exact HT.throwA _
+    · split
+      · exact HT.pure (fun _ _ => trivial)
+      · rename_i hs
+        refine HT.pre (fun s _ hp => ⟨hp, ?_⟩) (stepRun_ht p pa record fn hfn)
+        simpa [Gen.G.stepStopped] using hs
+
+theorem stepHandle_ht (p : Proc) (status : Status) (pa : Int) (e : Event) (fn : Rec → M (Except Abort FnRes × Rec))
+    (hfn : FnSpec cfg env fn) :
+    HT cfg env (fun _ => True) (stepHandle cfg p status pa e fn) (fun _ _ => True) := by
+  unfold stepHandle
+  refine HT.bind (HT.lookup _) (fun v => ?_)
+  cases v with
+  | none => exact HT.pure (fun _ _ => trivial)
+  | some record =>
+    exact HT.pre (fun s hi hp => (isHead_of_curR hi.hist hp.2.symm).1) (stepGate_ht p pa e record fn hfn)
+
+/-! ## the timeout inserter's consumer function never stores -/
+
+theorem Fr.inserterOne (status : Status) (run : Rec) : Fr (inserterOne status run) := by
+  unfold Engine.inserterOne
+  refine Fr.bind Fr.nextOutcome (fun out => Fr.bind (Fr.emit _) (fun _ => Fr.bind Fr.getSys (fun s => ?_)))
+  unfold Engine.inserterOutcome
+  split
+  · exact Fr.call (fun _ => rfl)
+  · exact Fr.pure _
+  · exact Fr.throwA _
+  · exact Fr.throwA _
+  · exact Fr.throwA _
+
+theorem Fr.inserterFn (status : Status) (run : Rec) : Fr (inserterFn cfg status run) := by
+  unfold Engine.inserterFn
+  refine Fr.bind (Fr.tryM (Fr.forM _ (fun _ => Fr.inserterOne status run))) (fun r => ?_)
+  cases r <;> exact Fr.pure _
+
+theorem inserterFn_val (status : Status) (run : Rec) (env : Env) (st : OpSt) :
+    (∃ st', inserterFn cfg status run env st = (.ok (.ok ⟨0, run.obj⟩, run), st')) ∨
+    (∃ a st', inserterFn cfg status run env st = (.ok (.error a, run), st')) := by
+  unfold Engine.inserterFn
+  rw [bind_run]
+  unfold Engine.tryM
+  rcases ((cfg.timeoutsAt status).forM (fun _ => inserterOne status run)) env st with ⟨r, st'⟩
+  cases r with
+  | ok _ => exact Or.inl ⟨st', rfl⟩
+  | error a => exact Or.inr ⟨a, st', rfl⟩
+
+theorem skip_zero : Gen.skipValues.contains (0 : Int) = true := by decide
+
+theorem inserterFn_spec (status : Status) : FnSpec cfg env (inserterFn cfg status) := by
+  intro R0 run
+  refine HT.post (Q' := fun r R => (R = R0 ∧ Based R0 run) ∧ (r = (.ok ⟨0, run.obj⟩, run) ∨ ∃ a, r = (.error a, run))) ?_ ?_
+  · intro st hi hz hp
+    obtain ⟨h1, h2, h3⟩ := HT.of_frame (cfg := cfg) (env := env) (P := fun R => R = R0 ∧ Based R0 run)
+      (Fr.inserterFn status run) (Pres.inserterFn (RelayInv.stable cfg).toStableH status run) st hi hz hp
+    refine ⟨h1, h2, fun a ha => ⟨h3 a ha, ?_⟩⟩
+    rcases inserterFn_val (cfg := cfg) status run env st with ⟨st', h⟩ | ⟨b, st', h⟩
+    · rw [h] at ha; cases ha; exact Or.inl rfl
+    · rw [h] at ha; cases ha; exact Or.inr ⟨b, rfl⟩
+  · intro r s _ ⟨⟨hR, hb⟩, hv⟩
+    rcases hv with rfl | ⟨a, rfl⟩
+    · exact fnpost_ok (Or.inl skip_zero)
+    · exact fnpost_err (fun _ => by rw [hR]; exact hb)
+
+theorem runFn_spec (hn : NoNested env) (kind : String) (fuel : Nat) :
+    FnSpec cfg env (fun run => runFn cfg kind run run fuel true) :=
+  fun R0 run => runFn_ht hn kind run run fuel true R0
+
+/-! ## callbacks -/
+
+theorem callbackGate_ht (status : Status) (wr : Rec) (runner : Rec → M (Except Abort FnRes × Rec)) (hfn : FnSpec cfg env runner) :
+    HT cfg env (fun R => IsHead R wr) (callbackGate cfg status wr runner) (fun _ _ => True) := by
+  refine HT.fix (fun R0 hp0 => ?_)
+  unfold callbackGate
+  split
+  · exact HT.pure (fun _ _ => trivial)
+  · split
+    · exact HT.pure (fun _ _ => trivial)
+    · rename_i hs
+      dsimp only
+      refine HT.bind (HT.pre (fun s _ hp => ⟨hp, based_view hp0⟩) (hfn R0 (viewRec wr))) (fun r => ?_)
+      obtain ⟨res, mem⟩ := r
+      cases res with
+      | error a => exact HT.throwA _
+      | ok res =>
+        dsimp only
+        split
+        · exact HT.pure (fun _ _ => trivial)
+        · rename_i hskip
+          refine HT.pre ?_ (updater_ht _ _ _ _)
+          intro s hi hp
+          rcases hp.1 res rfl with h | h
+          · exact absurd h hskip
+          · rw [h]
+            have := ubased_view hi (record := wr) (by rw [h]; exact hp0) (by simpa using hs)
+            rw [h] at this; exact this
+
+theorem isHead_of_latestR {s : Sys} (hi : HistInv cfg s) {fid : Fid} {h : Rec} (hl : latestR s.runs fid = some h) : IsHead s.runs h :=
+  isHead_of_latestRes hi (by rw [latestRes_eq]; exact hl)
+
+theorem callbackOne_ht (fid : Fid) (status : Status) (runner : Rec → M (Except Abort FnRes × Rec)) (hfn : FnSpec cfg env runner) :
+    HT cfg env (fun _ => True) (callbackOne cfg fid status runner) (fun _ _ => True) := by
+  unfold callbackOne
+  refine HT.bind (HT.latest _) (fun v => ?_)
+  cases v with
+  | none => exact HT.throwA _
+  | some wr => exact HT.pre (fun s hi hp => isHead_of_latestR hi.hist hp.2.symm) (callbackGate_ht status wr runner hfn)
+
+theorem callbackApi_ht (hn : NoNested env) (fid : Fid) (status : Status) (fuel : Nat) :
+    HT cfg env (fun _ => True) (callbackApi cfg fid status fuel) (fun _ _ => True) := by
+  cases fuel with
+  | zero => unfold callbackApi; exact HT.throwA _
+  | succ n =>
+    unfold callbackApi
+    exact HT.forM _ (fun _ => callbackOne_ht fid status _ (runFn_spec hn "callback" n))
+
+end WorkflowModel.Engine
+
+namespace WorkflowModel.Engine
+open WorkflowModel RS
+variable {cfg : Cfg} {env : Env}
+
+/-! ## hooks, the delete consumer, the paused-records retry consumer -/
+
+theorem Fr.lookup (rid : RunId) : Fr (Engine.lookup rid) := by
+  intro env st
+  rcases hl : Engine.lookup rid env st with ⟨r, st'⟩
+  cases r with
+  | ok v =>
+    obtain ⟨_, hsys, _, hst, _⟩ := lookup_ok hl
+    exact ⟨by rw [hsys], Or.inr hst⟩
+  | error e =>
+    have h1 := (lookup_err hl).1
+    have hst : st'.stale = 0 := by
+      unfold Engine.lookup at hl
+      have := call_stale (l := "lookup") (eff := fun s => ((lookupRes s rid st.stale).1, (.ok (lookupRes s rid st.stale).2 : Except Abort (Option Rec)), s)) env { st with stale := 0 }
+      rw [hl] at this
+      exact this
+    exact ⟨by rw [h1], Or.inr hst⟩
+
+theorem Fr.hookHandle (rs : RunState) (e : Event) : Fr (hookHandle cfg rs e) := by
+  unfold Engine.hookHandle
+  refine Fr.bind (Fr.lookup _) (fun v => ?_)
+  cases v with
+  | none => exact Fr.throwA _
+  | some record =>
+    dsimp only
+    split
+    · exact Fr.pure _
+    · refine Fr.bind Fr.nextOutcome (fun out => Fr.bind (Fr.emit _) (fun _ => ?_))
+      split
+      · exact Fr.throwA _
+      · exact Fr.bind Fr.loseLease (fun _ => Fr.throwA _)
+      · exact Fr.throwA _
+      · exact Fr.pure _
+
+theorem Fr.deleteObj (record : Rec) : Fr (deleteObj cfg record) := by
+  unfold Engine.deleteObj
+  split
+  · unfold Engine.customDeleteFn
+    split
+    · exact Fr.throwA _
+    · refine Fr.bind Fr.nextOutcome (fun out => Fr.bind (Fr.emit _) (fun _ => ?_))
+      split
+      · exact Fr.throwA _
+      · exact Fr.bind Fr.loseLease (fun _ => Fr.throwA _)
+      · exact Fr.throwA _
+      · exact Fr.pure _
+  · exact Fr.pure _
+
+/-- some write of the run was the delete request -/
+def HasRDD (R : List RunS) (rid : RunId) : Prop := ∃ x, R[rid]? = some x ∧ ∃ w ∈ x.hist, w.runState = 7
+
+theorem deleteHandle_ht (e : Event) :
+    HT cfg env (fun R => HasRDD R e.runId) (deleteHandle cfg e) (fun _ _ => True) := by
+  unfold deleteHandle
+  refine HT.bind (HT.lookup _) (fun v => ?_)
+  cases v with
+  | none => exact HT.throwA _
+  | some record =>
+    dsimp only
+    refine HT.bind (HT.of_frame (Fr.deleteObj record) (Pres.deleteObj record)) (fun newObj => ?_)
+    refine HT.pre ?_ (HT.updateRecord _)
+    intro s hi ⟨⟨x, hx, w, hw, h7⟩, hcur⟩
+    obtain ⟨hh, hid⟩ := isHead_of_curR hi.hist hcur.symm
+    have hrs : record.runState = 7 ∨ record.runState = 6 := by
+      obtain ⟨x', t, hx', hl⟩ := hh
+      rw [hid, hx] at hx'
+      cases hx'
+      exact chain_head_after_rdd x.hist record t hl (hi.hist _ _ hx).chain ⟨w, hw, h7⟩
+    exact legal_delete hi hh hrs newObj
+
+theorem retryHandle_ht (e : Event) : HT cfg env (fun _ => True) (retryHandle cfg e) (fun _ _ => True) := by
+  unfold retryHandle
+  refine HT.bind (HT.lookup _) (fun v => ?_)
+  cases v with
+  | none => exact HT.throwA _
+  | some record =>
+    dsimp only
+    split
+    · exact HT.pure (fun _ _ => trivial)
+    · refine HT.bind HT.getSys (fun s => ?_)
+      try dsimp only
+      split
+      · exact HT.pure (fun _ _ => trivial)
+      · refine HT.bind (HT.pre ?_ (ctlUpdate_ht record .resume)) (fun _ => HT.pure (fun _ _ => trivial))
+        intro s' hi hp _
+        exact based_head (isHead_of_curR hi.hist hp.1.2.symm).1
+
+theorem handle_ht (hn : NoNested env) (p : Proc) (e : Event) :
+    HT cfg env (fun R => p = .delete → HasRDD R e.runId) (handle cfg p e) (fun _ _ => True) := by
+  unfold handle
+  split
+  · exact HT.pre (fun _ _ _ => trivial) (stepHandle_ht _ _ _ e _ (runFn_spec hn "step" fuelDefault))
+  · exact HT.pre (fun _ _ _ => trivial) (stepHandle_ht _ _ _ e _ (inserterFn_spec _))
+  · exact HT.post (HT.of_frame (Fr.hookHandle _ e) (Pres.hookHandle _ e)) (fun _ _ _ _ => trivial)
+  · exact HT.pre (fun _ _ hp => hp rfl) (deleteHandle_ht e)
+  · exact HT.pre (fun _ _ _ => trivial) (retryHandle_ht e)
+  · exact HT.pure (fun _ _ => trivial)
+
+theorem deliver_ht (hn : NoNested env) (p : Proc) (i : Nat) (e : Event) :
+    HT cfg env (fun R => p = .delete → HasRDD R e.runId) (deliver cfg p i e) (fun _ _ => True) := by
+  unfold deliver
+  split
+  · exact HT.post (HT.ack p i) (fun _ _ _ _ => trivial)
+  · exact HT.bind (handle_ht hn p e) (fun _ => HT.ack p i)
+
+/-! ## events on the delete topic announce delete requests -/
+
+theorem topicKind_delete {rs : Int} (h : Gen.outboxTopicKind rs = 1) : rs = 7 := by
+  unfold Gen.outboxTopicKind at h
+  simp only [Gen.RunStateRequestedDataDeleted, Gen.RunStatePaused, Gen.RunStateCancelled, Gen.RunStateDataDeleted,
+    Gen.RunStateCompleted] at h
+  by_cases h7 : rs = 7
+  · exact h7
+  · simp [h7] at h
+    split at h <;> simp at h
+
+theorem hasRDD_of_delete_event {s : Sys} (hi : Inv cfg s) {e : Event} (he : e ∈ s.log) (hk : e.topicKind = 1) :
+    HasRDD s.runs e.runId := by
+  obtain ⟨w, ⟨run, hrun, hw⟩, hc⟩ := hi.relay.log_written e he
+  have h1 : (Routing.route w).topicKind = 1 := by rw [← hc]; exact hk
+  have h2 : (Routing.route w).runId = e.runId := by rw [← hc]; rfl
+  have h7 : w.runState = 7 := topicKind_delete h1
+  obtain ⟨i, hlt, hget⟩ := List.getElem_of_mem hrun
+  have hx : s.runs[i]? = some run := by rw [List.getElem?_eq_getElem hlt, hget]
+  have hid := ((hi.hist _ _ hx).ids w hw).1
+  have : e.runId = i := by rw [← h2]; exact hid
+  exact ⟨run, by rw [this]; exact hx, w, hw, h7⟩
+
+theorem nextIndexFrom_subscribed (p : Proc) (log : List Event) : ∀ (fuel i j : Nat),
+    nextIndexFrom p log i fuel = some j → ∃ e, log[j]? = some e ∧ subscribed p e = true
+  | 0, _, _, h => by simp [nextIndexFrom] at h
+  | fuel + 1, i, j, h => by
+    unfold nextIndexFrom at h
+    cases hl : log[i]? with
+    | none => rw [hl] at h; simp at h
+    | some e =>
+      rw [hl] at h
+      simp only at h
+      split at h
+      · rename_i hs
+        cases h
+        exact ⟨e, hl, hs⟩
+      · exact nextIndexFrom_subscribed p log fuel (i + 1) j h
+
+theorem subscribed_delete {e : Event} (h : subscribed .delete e = true) : e.topicKind = 1 := by
+  simpa [subscribed] using h
+
+theorem recvOp_ht (hn : NoNested env) (p : Proc) : HT cfg env (fun _ => True) (recvOp cfg p) (fun _ _ => True) := by
+  unfold recvOp
+  refine HT.bind HT.getSys (fun s => ?_)
+  cases hni : s.nextIndex p with
+  | none => exact HT.throwA _
+  | some i =>
+    dsimp only
+    cases hle : s.log[i]? with
+    | none => exact HT.throwA _
+    | some e =>
+      dsimp only
+      have hsub : ∃ e', s.log[i]? = some e' ∧ subscribed p e' = true := nextIndexFrom_subscribed p s.log _ _ _ hni
+      have hsub' : subscribed p e = true := by
+        obtain ⟨e', h1, h2⟩ := hsub
+        rw [hle] at h1; cases h1; exact h2
+      refine HT.bind (HT.call_frame (fun _ => rfl) (fun _ h => h)) (fun _ => ?_)
+      split
+      · exact HT.pure (fun _ _ => trivial)
+      · refine HT.bind (HT.pre ?_ (deliver_ht hn p i e)) (fun _ => HT.pure (fun _ _ => trivial))
+        intro s' _ hp hd
+        subst hd
+        have := hasRDD_of_delete_event hp.2.2 (List.mem_of_getElem? hle) (subscribed_delete hsub')
+        rw [hp.2.1] at this
+        exact this
+
+end WorkflowModel.Engine
+
+namespace WorkflowModel.Engine
+open WorkflowModel RS
+variable {cfg : Cfg} {env : Env}
+
+/-! ## the timeout poller -/
+
+/-- at most one timeout configuration per status (two share one timer and one record read: finding F19) -/
+def OneTimeout (cfg : Cfg) : Prop := ∀ s, (cfg.timeoutsAt s).length ≤ 1
+
+theorem processTimeout_ht (hn : NoNested env) (p : Proc) (status : Status) (shared : Rec) (t : Timer) :
+    HT cfg env (fun R => IsHead R shared ∧ Gen.stopped shared.runState = false)
+      (processTimeout cfg p status shared t) (fun _ _ => True) := by
+  refine HT.fix (fun R0 hp0 => ?_)
+  unfold processTimeout
+  dsimp only
+  refine HT.bind (HT.pre (fun s _ hp => ⟨hp, based_view hp0.1⟩) (runFn_ht hn "timeout" _ _ fuelDefault true R0)) (fun r => ?_)
+  obtain ⟨res, mem⟩ := r
+  cases res with
+  | error err =>
+    dsimp only
+    refine HT.bind (HT.pre (fun s _ hp => hp.2 err rfl) (maybePauseMem_ht _ p mem err)) (fun r => ?_)
+    exact HT.pure (fun _ _ => trivial)
+  | ok res =>
+    dsimp only
+    split
+    · exact HT.pure (fun _ _ => trivial)
+    · rename_i hskip
+      refine HT.bind (Q := fun _ _ => True) (HT.pre ?_ (updater_ht _ _ _ _)) (fun _ => ?_)
+      · intro s hi hp
+        rcases hp.1 res rfl with h | h
+        · exact absurd h hskip
+        · rw [h]
+          have := ubased_view hi (record := shared) (by rw [h]; exact hp0.1) hp0.2
+          rw [h] at this; exact this
+      · refine HT.bind (HT.call_frame (fun _ => rfl) (fun s h => (RelayInv.stable cfg).timerComplete s _ h)) (fun _ => ?_)
+        exact HT.pure (fun _ _ => trivial)
+
+theorem list_le_one {γ : Type} (l : List γ) (h : l.length ≤ 1) : l = [] ∨ ∃ b, l = [b] := by
+  cases l with
+  | nil => exact Or.inl rfl
+  | cons b t =>
+    cases t with
+    | nil => exact Or.inr ⟨b, rfl⟩
+    | cons c t' => simp at h
+
+theorem pollGate_ht (hn : NoNested env) (h1 : OneTimeout cfg) (p : Proc) (status : Status) (t : Timer) (r : Rec) :
+    HT cfg env (fun R => IsHead R r) (pollGate cfg p status t r) (fun _ _ => True) := by
+  unfold pollGate
+  split
+  · exact HT.post (HT.call_frame (fun _ => rfl) (fun s h => (RelayInv.stable cfg).timerCancel s _ h)) (fun _ _ _ _ => trivial)
+  · split
+    · exact HT.pure (fun _ _ => trivial)
+    · rename_i hs
+      have hs' : Gen.stopped r.runState = false := by simpa [Gen.G.pollSkipStopped] using hs
+      rcases list_le_one _ (h1 status) with hl | ⟨b, hl⟩
+      · rw [hl]
+        exact HT.pure (fun _ _ => trivial)
+      · rw [hl]
+        simp only [List.foldlM]
+        refine HT.bind (Q := fun _ _ => True)
+          (HT.bind (Q := fun _ _ => True) (HT.pre (fun s _ hp => ⟨hp, hs'⟩) (processTimeout_ht hn p status r t)) (fun _ => ?_)) (fun _ => ?_)
+        · exact HT.pure (fun _ _ => trivial)
+        · exact HT.pure (fun _ _ => trivial)
+
+theorem pollTimer_ht (hn : NoNested env) (h1 : OneTimeout cfg) (p : Proc) (status : Status) (t : Timer) :
+    HT cfg env (fun _ => True) (pollTimer cfg p status t) (fun _ _ => True) := by
+  unfold pollTimer
+  refine HT.bind (HT.lookup _) (fun v => ?_)
+  cases v with
+  | none => exact HT.throwA _
+  | some r => exact HT.pre (fun s hi hp => (isHead_of_curR hi.hist hp.2.symm).1) (pollGate_ht hn h1 p status t r)
+
+theorem pollOp_ht (hn : NoNested env) (h1 : OneTimeout cfg) (p : Proc) (status : Status) (q : Int) :
+    HT cfg env (fun _ => True) (pollOp cfg p status q) (fun _ _ => True) := by
+  unfold pollOp
+  refine HT.bind (HT.call_frame (fun _ => rfl) (fun _ h => h)) (fun due => ?_)
+  exact HT.forM _ (fun t => pollTimer_ht hn h1 p status t)
+
+/-! ## the relay never stores -/
+
+theorem Fr.relayEntry (o : OutE) : Fr (relayEntry o) := by
+  unfold Engine.relayEntry
+  refine Fr.bind (Fr.call (fun _ => rfl)) (fun _ => ?_)
+  refine Fr.bind (Fr.tryM (Fr.call (fun _ => rfl))) (fun r => ?_)
+  refine Fr.bind (Fr.emit _) (fun _ => ?_)
+  cases r with
+  | error a => exact Fr.throwA _
+  | ok _ => exact Fr.call (fun _ => rfl)
+
+theorem Fr.relayOp : Fr (relayOp cfg) := by
+  unfold Engine.relayOp
+  exact Fr.bind (Fr.call (fun _ => rfl)) (fun batch => Fr.forM _ (fun o => Fr.relayEntry o))
+
+/-! ## one operation of a background process -/
+
+theorem procBody_ht (hn : NoNested env) (h1 : OneTimeout cfg) (p : Proc) (ps : PState) :
+    HT cfg env (fun _ => True) (procBody cfg p ps) (fun _ _ => True) := by
+  unfold procBody
+  split
+  · exact HT.pure (fun _ _ => trivial)
+  · refine HT.bind (HT.emit _) (fun _ => ?_)
+    split
+    · exact HT.bind (HT.of_frame Fr.relayOp (Pres.relayOp cfg)) (fun _ => HT.pure (fun _ _ => trivial))
+    · exact HT.bind HT.getSys (fun _ => HT.pure (fun _ _ => trivial))
+    · refine HT.bind (Q := fun _ _ => True) ?_ (fun _ => HT.pure (fun _ _ => trivial))
+      unfold newReceiver
+      exact HT.post (HT.call_frame (fun _ => rfl) (fun _ h => h)) (fun _ _ _ _ => trivial)
+  · split
+    · refine HT.bind (pollOp_ht hn h1 _ _ _) (fun _ => ?_)
+      exact HT.bind HT.getSys (fun _ => HT.pure (fun _ _ => trivial))
+    · exact HT.pure (fun _ _ => trivial)
+  · exact recvOp_ht hn p
+  · rename_i i u
+    refine HT.bind HT.getSys (fun s => ?_)
+    cases hle : s.log[i]? with
+    | none => exact HT.throwA _
+    | some e =>
+      dsimp only
+      split
+      · rename_i hsub
+        refine HT.bind (HT.pre ?_ (deliver_ht hn p i e)) (fun _ => HT.pure (fun _ _ => trivial))
+        intro s' _ hp hd
+        subst hd
+        have := hasRDD_of_delete_event hp.2.2 (List.mem_of_getElem? hle) (subscribed_delete hsub)
+        rw [hp.2.1] at this
+        exact this
+      · exact HT.throwA _
+
+theorem procOp_ht (hn : NoNested env) (h1 : OneTimeout cfg) (p : Proc) :
+    HT cfg env (fun _ => True) (procOp cfg p) (fun _ _ => True) := by
+  unfold procOp
+  refine HT.bind HT.getSys (fun s => ?_)
+  refine HT.bind (HT.tryM (HT.pre (fun _ _ _ => trivial) (procBody_ht hn h1 p (s.pstate p)))) (fun r => ?_)
+  refine HT.bind HT.isCancelled (fun dead => ?_)
+  have hset : ∀ x, HT cfg env (fun _ => True) (modifySys (·.setPState p x)) (fun _ _ => True) := fun x =>
+    HT.post (HT.modifySys (fun _ => rfl) (fun s h => (RelayInv.stable cfg).setPState s _ _ h)) (fun _ _ _ _ => trivial)
+  split
+  · exact HT.pre (fun _ _ _ => trivial) (hset _)
+  · refine HT.bind HT.openedReceiver (fun _ => HT.bind (HT.emitIf _ _) (fun _ => HT.bind HT.getSys (fun s' => ?_)))
+    exact HT.pre (fun _ _ _ => trivial) (hset _)
+
+theorem Fr.modifySys {f : Sys → Sys} (hf : ∀ s, (f s).runs = s.runs) : Fr (Engine.modifySys f) :=
+  fun _ st => ⟨hf st.sys, Or.inl rfl⟩
+
+theorem Fr.leaseLossOp (p : Proc) : Fr (leaseLossOp cfg p) := by
+  unfold Engine.leaseLossOp
+  refine Fr.bind Fr.getSys (fun s => ?_)
+  split
+  · exact Fr.pure _
+  · exact Fr.modifySys (fun _ => rfl)
+  · exact Fr.bind (Fr.emit _) (fun _ => Fr.bind (Fr.emit _) (fun _ => Fr.modifySys (fun _ => rfl)))
+  · exact Fr.bind (Fr.emit _) (fun _ => Fr.modifySys (fun _ => rfl))
+  · split
+    · exact Fr.bind (Fr.emit _) (fun _ => Fr.modifySys (fun _ => rfl))
+    · exact Fr.pure _
+
+/-! ## API calls -/
+
+theorem triggerApi_ht (fid : Fid) (start : Status) (n : Obj) :
+    HT cfg env (fun _ => True) (triggerApi cfg fid start n) (fun _ _ => True) := by
+  unfold triggerApi
+  cases hts : triggerStart cfg start with
+  | none => exact HT.throwA _
+  | some st =>
+    dsimp only
+    refine HT.bind (HT.latest _) (fun last => ?_)
+    split
+    · exact HT.throwA _
+    · refine HT.bind HT.getSys (fun s => ?_)
+      refine HT.bind (HT.pre ?_ (HT.updateRecord _)) (fun _ => HT.pure (fun _ _ => trivial))
+      intro s' _ hp
+      rw [← hp.2.1]
+      exact legal_trigger fid st n s.now (C02.C02_trigger_start_declared cfg start st hts).1
+
+theorem ctlFreshApi_ht (rid : RunId) (op : CtlOp) :
+    HT cfg env (fun _ => True) (ctlFreshApi cfg rid op) (fun _ _ => True) := by
+  unfold ctlFreshApi
+  refine HT.bind HT.getSys (fun s => ?_)
+  split
+  · exact HT.throwA _
+  · refine HT.bind (HT.lookup _) (fun v => ?_)
+    cases v with
+    | none => exact HT.throwA _
+    | some r =>
+      dsimp only
+      refine HT.bind (HT.pre ?_ (ctlUpdate_ht r op)) (fun _ => HT.pure (fun _ _ => trivial))
+      intro s' hi hp _
+      exact based_head (isHead_of_curR hi.hist hp.2.symm).1
+
+theorem Fr.handleApi (rid : RunId) : Fr (handleApi rid) := by
+  unfold Engine.handleApi
+  refine Fr.bind Fr.getSys (fun s => ?_)
+  split
+  · exact Fr.throwA _
+  · refine Fr.bind (Fr.lookup _) (fun v => ?_)
+    cases v with
+    | none => exact Fr.throwA _
+    | some r => exact Fr.bind (Fr.modifySys (fun _ => rfl)) (fun _ => Fr.pure _)
+
+end WorkflowModel.Engine
